@@ -863,6 +863,14 @@ fn validate_endpoint(endpoint: &str) -> Result<()> {
     // Ribbit endpoints don't use v1/ prefix, they use direct product paths like "wow/versions"
     // TACT endpoints might use v1/ but we'll handle that in the TACT client itself
 
+    // The endpoint becomes part of URLs and of cache file paths
+    // ("api/ribbit/{endpoint}"): refuse absolute paths and `.` / `..` segments
+    if endpoint.starts_with('/') || endpoint.split('/').any(|seg| seg == "." || seg == "..") {
+        return Err(ProtocolError::InvalidEndpoint(
+            "Path traversal in endpoint".to_string(),
+        ));
+    }
+
     // Check for suspicious characters
     for c in endpoint.chars() {
         if !c.is_alphanumeric() && !matches!(c, '/' | '_' | '-' | '.') {
